@@ -280,6 +280,102 @@ def main():
         raise Missing("sql:restore:select/begin")
     boolean("sqlRestoreReadsBeforeBegin", first_sel < begin_i,
             "lib.rs restore_group_from_snapshot: the snapshot rows are SELECTed before BEGIN IMMEDIATE")
+    # ---- codec facts (C15): tag constants, MIME allow-list, versions ---------------------------------
+    def bytes_lit(t): return "[" + ", ".join(str(b) for b in t.encode("utf-8")) + "]"
+    def strfact(name, t, prov): facts[name] = ("List Nat", bytes_lit(t), prov + f' = "{t}"')
+    def strlist(name, ts, prov): facts[name] = ("List (List Nat)", "[" + ", ".join(bytes_lit(t) for t in ts) + "]", prov + " = " + ", ".join(ts))
+    const_rs = strip_comments(read("crates/mdk-core/src/constant.rs"))
+    util_rs = strip_comments(non_test(read("crates/mdk-core/src/util.rs")))
+    if len(re.findall(r'format!\(\s*"0x\{:04x\}"\s*,\s*u16::from\(\*self\)\s*\)', util_rs)) < 2:
+        raise Missing("codec:to_nostr_tag-format")
+    m = re.search(r"NOSTR_GROUP_DATA_EXTENSION_TYPE\s*:\s*u16\s*=\s*(0x[0-9A-Fa-f]+|\d+)\s*;", const_rs)
+    if not m:
+        raise Missing("const:NOSTR_GROUP_DATA_EXTENSION_TYPE")
+    ngd = int(m.group(1), 0)
+    nat("nostrGroupDataExtensionType", ngd, "mdk-core constant.rs NOSTR_GROUP_DATA_EXTENSION_TYPE")
+    EXT_IDS = {"ApplicationId": 1, "RatchetTree": 2, "RequiredCapabilities": 3, "ExternalPub": 4, "ExternalSenders": 5, "LastResort": 10}   # openmls ExtensionType (RFC 9420 §17.3)
+    def ext_array(cname):
+        mm = re.search(r"\bconst\s+" + cname + r"\s*:\s*\[\s*ExtensionType\s*;\s*(\d+)\s*\]\s*=\s*\[(.*?)\]\s*;", const_rs, re.S)
+        if not mm:
+            raise Missing("const:" + cname)
+        ids = []
+        for it in [x.strip() for x in mm.group(2).split(",") if x.strip()]:
+            mu = re.fullmatch(r"ExtensionType::Unknown\(\s*NOSTR_GROUP_DATA_EXTENSION_TYPE\s*\)", it)
+            mk = re.fullmatch(r"ExtensionType::(\w+)", it)
+            if mu: ids.append(ngd)
+            elif mk and mk.group(1) in EXT_IDS: ids.append(EXT_IDS[mk.group(1)])
+            else: raise Missing(f"const:{cname}:item:{it}")
+        if len(ids) != int(mm.group(1)):
+            raise Missing("const:" + cname + ":arity")
+        return ["0x%04x" % i for i in ids]
+    strlist("kpRequiredExtensionTags", ext_array("TAG_EXTENSIONS"), "constant.rs TAG_EXTENSIONS (checked by validate_extensions_tag)")
+    strlist("kpCreatedExtensionTags", ext_array("SUPPORTED_EXTENSIONS"), "constant.rs SUPPORTED_EXTENSIONS (MDK.extensions, written by create_key_package_for_event)")
+    CS_IDS = {"MLS_128_DHKEMX25519_AES128GCM_SHA256_Ed25519": 1, "MLS_128_DHKEMP256_AES128GCM_SHA256_P256": 2,
+              "MLS_128_DHKEMX25519_CHACHA20POLY1305_SHA256_Ed25519": 3}
+    m = re.search(r"DEFAULT_CIPHERSUITE\s*:\s*Ciphersuite\s*=\s*Ciphersuite::(\w+)\s*;", const_rs)
+    if not m or m.group(1) not in CS_IDS:
+        raise Missing("const:DEFAULT_CIPHERSUITE")
+    strfact("kpCiphersuiteTag", "0x%04x" % CS_IDS[m.group(1)], "constant.rs DEFAULT_CIPHERSUITE through NostrTagFormat")
+    kp_rs = strip_comments(non_test(read("crates/mdk-core/src/key_packages.rs")))
+    m = re.search(r'if\s*\*version_value\s*!=\s*"([^"]+)"', kp_rs)
+    if not m:
+        raise Missing("kp:protocol-version-literal")
+    strfact("kpProtocolVersion", m.group(1), "key_packages.rs validate_protocol_version_tag")
+    if not re.search(r"event\.kind\s*!=\s*Kind::MlsKeyPackage", kp_rs):
+        raise Missing("kp:kind-check")
+    nat("kindMlsKeyPackage", 443, "nostr Kind::MlsKeyPackage (NIP-EE), checked first by parse_key_package")
+    w_rs = strip_comments(non_test(read("crates/mdk-core/src/welcomes.rs")))
+    if not re.search(r"event\.kind\s*!=\s*Kind::MlsWelcome", w_rs):
+        raise Missing("welcome:kind-check")
+    nat("kindMlsWelcome", 444, "nostr Kind::MlsWelcome, checked first by validate_welcome_event")
+    m = re.search(r"if\s+tags\.len\(\)\s*<\s*(\d+)", w_rs)
+    if not m:
+        raise Missing("welcome:min-tags")
+    nat("welcomeMinTags", int(m.group(1)), "welcomes.rs validate_welcome_event minimum tag count")
+    m = re.search(r'ContentEncoding::Base64\s*=>\s*"([^"]+)"', util_rs)
+    if not m:
+        raise Missing("util:encoding-tag-value")
+    strfact("encodingTagValue", m.group(1), "util.rs ContentEncoding::as_tag_value")
+    cargo = read("crates/mdk-core/Cargo.toml")
+    m = re.search(r'^version\s*=\s*"([^"]+)"', cargo, re.M)
+    if not m:
+        raise Missing("cargo:mdk-core-version")
+    strfact("clientTagValue", "MDK/" + m.group(1), "Tag::client(format!(\"MDK/{}\", CARGO_PKG_VERSION))")
+    mv = strip_comments(non_test(read("crates/mdk-core/src/media_processing/validation.rs")))
+    def str_array(src, cname):
+        mm = re.search(r"\bconst\s+" + cname + r"\s*:\s*&\[&str\]\s*=\s*&\[(.*?)\]\s*;", src, re.S)
+        if not mm:
+            raise Missing("const:" + cname)
+        return strings(mm.group(1))
+    strlist("supportedMimeTypes", str_array(mv, "SUPPORTED_MIME_TYPES"), "media_processing/validation.rs SUPPORTED_MIME_TYPES")
+    m = re.search(r'ESCAPE_HATCH_MIME_TYPE\s*:\s*&str\s*=\s*"([^"]+)"', mv)
+    if not m:
+        raise Missing("const:ESCAPE_HATCH_MIME_TYPE")
+    strfact("escapeHatchMimeType", m.group(1), "media_processing/validation.rs ESCAPE_HATCH_MIME_TYPE")
+    m = re.search(r"canonical\.len\(\)\s*>\s*(\d+)", fn_body(mv, "validate_mime_type", "fn:validate_mime_type"))
+    if not m:
+        raise Missing("mime:max-len")
+    nat("maxMimeLength", int(m.group(1)), "validate_mime_type canonical length bound")
+    mt = strip_comments(non_test(read("crates/mdk-core/src/media_processing/types.rs")))
+    nat("maxFilenameLength", const_usize(mt, "MAX_FILENAME_LENGTH", "const:MAX_FILENAME_LENGTH"), "media_processing/types.rs MAX_FILENAME_LENGTH")
+    cr = strip_comments(non_test(read("crates/mdk-core/src/encrypted_media/crypto.rs")))
+    m = re.search(r'DEFAULT_SCHEME_VERSION\s*:\s*&str\s*=\s*"([^"]+)"', cr)
+    if not m:
+        raise Missing("const:DEFAULT_SCHEME_VERSION")
+    strfact("defaultSchemeVersion", m.group(1), "encrypted_media/crypto.rs DEFAULT_SCHEME_VERSION")
+    sup = fn_body(cr, "is_scheme_version_supported", "fn:is_scheme_version_supported")
+    strlist("supportedSchemeVersions", [mm.group(1) for mm in re.finditer(r'"([^"]+)"\s*=>\s*true', sup)], "crypto.rs is_scheme_version_supported")
+    ext_rs = strip_comments(non_test(read("crates/mdk-core/src/extension/types.rs")))
+    nat("extCurrentVersion", const_usize(ext_rs, "CURRENT_VERSION", "const:CURRENT_VERSION"), "extension/types.rs CURRENT_VERSION")
+    mm = re.search(r"struct\s+TlsNostrGroupDataExtension\s*\{(.*?)\}", ext_rs, re.S)
+    if not mm:
+        raise Missing("struct:TlsNostrGroupDataExtension")
+    layout = [re.sub(r"\s+", "", re.sub(r"^\s*pub(\([a-z]+\))?\s+", "", f.split(":", 1)[0])) + ":" + re.sub(r"\s+", "", f.split(":", 1)[1]) for f in mm.group(1).split(",") if ":" in f]
+    expect = ["version:u16", "nostr_group_id:[u8;32]", "name:Vec<u8>", "description:Vec<u8>", "admin_pubkeys:Vec<[u8;32]>",
+              "relays:Vec<Vec<u8>>", "image_hash:Vec<u8>", "image_key:Vec<u8>", "image_nonce:Vec<u8>", "image_upload_key:Vec<u8>"]
+    boolean("extLayoutAsModelled", layout == expect, "extension/types.rs TlsNostrGroupDataExtension field order and types equal Model.Codec.Raw: " + " ".join(layout))
+    boolean("extTrailingBytesChecked", bool(re.search(r"if\s*!\s*remainder\.is_empty\(\)\s*\{\s*return\s+Err", fn_body(ext_rs, "deserialize_bytes", "fn:deserialize_bytes"))),
+            "extension/types.rs deserialize_bytes refuses a non-empty remainder")
 
     # ---- emit -------------------------------------------------------------------------------
     lines = ["/- GENERATED by tools/gen_model.py from the current /repo source — do not edit. -/",
